@@ -364,6 +364,29 @@ def main(tier):
         r2['violations'] = []
         agg.add(r2)
         html_violations.extend(vs)
+    # the text the parsers see is the file byte for byte (byte columns are columns of the file)
+    from . import fsroot
+    for r in pmap(fsroot.run_readfs, [(0, False), (1, False), (3, False), (4, False), (6, False), (2, True)], chunksize=1):
+        r2 = dict(r)
+        for v in r.get('violations', []):
+            if v['role'] in html_seen:
+                continue
+            html_seen.add(v['role'])
+            v['kind'] = 'fsread'
+            v['src'] = ''
+            fsroot.confirm_read(binary, PROP, v, 0)
+            html_violations.append(v)
+        r2['violations'] = []
+        agg.add(r2)
+    if not any(v.get('kind') == 'fsread' for v in html_violations):
+        pv = dict(role='sample', summary='passing path', content='\xef\xbb\xbf a')
+        fsroot.confirm_read(binary, PROP, pv, 90)
+        if pv.get('confirmed'):
+            msg = 'file-text replay disagrees with the real binary on a passing path: observed %s expected %s' % (pv.get('observed'), pv.get('expected'))
+            agg.validation_failures.append(msg)
+            agg.engine_errors.append({'engine_error': 'translator validation: ' + msg})
+        else:
+            agg.validated += 1
     if not html_violations:
         # validation of the replay itself: on a tree where the post-conditions hold it must not "confirm"
         pv = dict(role='sample', summary='passing path')
@@ -409,11 +432,12 @@ def main(tier):
                      'the winnow tag parser is replaced by a reference scanner over the concrete comment text',
                      'regex is a stub for the single pattern ^a+$',
                      'Markdown html blocks: MdParser::parse_html_comments on symbolic block start (row, column) and symbolic relative comment positions; tree-sitter query results and the inner HTML comment parser are stubs that return block-relative coordinates',
+                     'FileSystemImpl::read_to_string over a std::fs::read_to_string stub returning 0-6 symbolic bytes (byte-order mark, CR, LF, blank, #, <, a): the text handed to the parsers is the file byte for byte',
                      'ASCII; keys over {a,b} with inner blanks; the ranges of Lua/AI diagnostics are asserted in C18/C19'],
         stubs=['WinnowBlockTagParser::next (reference scanner)', 'regex::Regex::new / is_match for ^a+$', 'serde_json::to_value',
                'tree_sitter Parser::parse / QueryCursor::matches / Node (html-block model)', 'CommentsParser::parse of the html parser (block-relative comments)'],
         must_cover=['key-range', 'tag-range', 'tag on a later comment line', 'comment continues after the tag line',
-                    'content starts on the comment line', 'html blocks'],
+                    'content starts on the comment line', 'html blocks', 'read'],
         explanation='per layout and line shapes: first-offender conditions as Z3 formulas over the key bytes; reported range compared with the positions in the assembled file text')
 
 
